@@ -54,7 +54,7 @@ func nop2(e *Engine, st *State, fr *Frame, callee *ssa.Function, args []Val, at 
 	for i := 0; i < callee.Signature.Results().Len(); i++ {
 		v, as := freshVal("ret$"+callee.Name(), callee.Signature.Results().At(i).Type())
 		for _, a := range as {
-			st.assume(a)
+			e.fact(st, a)
 		}
 		out = append(out, v)
 	}
@@ -69,7 +69,7 @@ func freshError(e *Engine, st *State, fr *Frame, callee *ssa.Function, args []Va
 		errTag = typeID(types.NewPointer(types.NewNamed(types.NewTypeName(0, nil, "errorString$model", nil), types.NewStruct(nil, nil), nil)))
 	}
 	d := Fresh("err", SInt)
-	st.assume(Lt(IntC(0), d))
+	e.fact(st, Lt(IntC(0), d))
 	return []Val{{IntC(errTag), d}}
 }
 
@@ -84,7 +84,7 @@ func sprintfModel(e *Engine, st *State, fr *Frame, callee *ssa.Function, args []
 		}
 	}
 	r := Fresh("sprintf", SInt)
-	st.assume(Le(IntC(0), r))
+	e.fact(st, Le(IntC(0), r))
 	return []Val{{r}}
 }
 
@@ -102,11 +102,11 @@ func strUF(name string, shrinks bool) modelFn {
 			}
 		}
 		r := App(smtName(name), SInt, s)
-		st.assume(Le(IntC(0), r))
+		e.fact(st, Le(IntC(0), r))
 		if shrinks {
-			st.assume(Le(strLen(r), strLen(s)))
+			e.fact(st, Le(strLen(r), strLen(s)))
 		} else {
-			st.assume(Eq(strLen(r), strLen(s)))
+			e.fact(st, Eq(strLen(r), strLen(s)))
 		}
 		return []Val{{r}}
 	}
@@ -234,12 +234,12 @@ func initBigModels() {
 	}
 	modelTable["(*math/big.Int).BitLen"] = func(e *Engine, st *State, fr *Frame, callee *ssa.Function, args []Val, at ssa.Instruction) []Val {
 		r := App("bitlen", SInt, bigGet(st, args[0][0]))
-		st.assume(Le(IntC(0), r))
+		e.fact(st, Le(IntC(0), r))
 		return []Val{{r}}
 	}
 	modelTable["(*math/big.Int).String"] = func(e *Engine, st *State, fr *Frame, callee *ssa.Function, args []Val, at ssa.Instruction) []Val {
 		r := App("decimal_text", SInt, bigGet(st, args[0][0]))
-		st.assume(Le(IntC(0), r))
+		e.fact(st, Le(IntC(0), r))
 		return []Val{{r}}
 	}
 }
